@@ -5,6 +5,7 @@
 #include <iostream>
 #include <random>
 #include <thread>
+#include <unistd.h>
 
 #include "common.h"
 
@@ -81,7 +82,12 @@ int main(int argc, char **argv) {
     }
     // progress marker for crash attribution (stderr, unbuffered)
     if (getenv("VH_TRACE")) fprintf(stderr, "@%ld\n", n);
+    // per-line watchdog: an operation that does not finish (e.g. a loop that a source change made endless) is
+    // killed by SIGALRM and attributed to its line by the caller; VH_LINE_TIMEOUT seconds, 0 = off
+    static const unsigned line_timeout = getenv("VH_LINE_TIMEOUT") ? atoi(getenv("VH_LINE_TIMEOUT")) : 300;
+    if (line_timeout) alarm(line_timeout);
     std::cout << it->second(a) << "\n";
+    if (line_timeout) alarm(0);
     std::cout.flush();
   }
   return 0;
